@@ -172,6 +172,7 @@ type c09Config struct {
 	CloseErr    bool
 	BadTurnURL  bool // a second TURN URL without credentials follows the valid one (accepted at construction, skipped by the gatherer)
 	LongStunTimeout bool // STUN gather timeout 10 s instead of 60 ms: cancellation, not the timeout, has to end pending exchanges
+	TwoStunURLs     bool // a second STUN server that reports the same mapped address: duplicate server-reflexive candidates
 }
 
 func c09ConfigGen() *rapid.Generator[c09Config] {
@@ -197,6 +198,7 @@ func c09ConfigGen() *rapid.Generator[c09Config] {
 		c.CloseErr = rapid.IntRange(0, 5).Draw(t, "closeErr") == 0
 		c.BadTurnURL = rapid.IntRange(0, 3).Draw(t, "badTurnURL") == 0
 		c.LongStunTimeout = rapid.IntRange(0, 3).Draw(t, "longStunTimeout") == 0
+		c.TwoStunURLs = rapid.IntRange(0, 2).Draw(t, "twoStunURLs") == 0
 
 		return c
 	})
@@ -237,6 +239,9 @@ func newC09World(cfg c09Config, extra ...AgentOption) (*c09World, error) {
 	}
 	w.fn = newFakeNet(ifaces)
 	w.fn.stunServers["198.51.100.1:3478"] = cfg.StunMode
+	if cfg.TwoStunURLs {
+		w.fn.stunServers["198.51.100.4:3478"] = cfg.StunMode
+	}
 	w.fn.turnMode = cfg.TurnMode
 	w.fn.closeErr = cfg.CloseErr
 	if cfg.ListenErrAt > 0 {
@@ -258,6 +263,9 @@ func newC09World(cfg c09Config, extra ...AgentOption) (*c09World, error) {
 	if hasType(cfg.Types, CandidateTypeServerReflexive) || hasType(cfg.Types, CandidateTypeRelay) {
 		if hasType(cfg.Types, CandidateTypeServerReflexive) {
 			urls = append(urls, &stun.URI{Scheme: stun.SchemeTypeSTUN, Host: "198.51.100.1", Port: 3478, Proto: stun.ProtoTypeUDP})
+			if cfg.TwoStunURLs {
+				urls = append(urls, &stun.URI{Scheme: stun.SchemeTypeSTUN, Host: "198.51.100.4", Port: 3478, Proto: stun.ProtoTypeUDP})
+			}
 		}
 		if hasType(cfg.Types, CandidateTypeRelay) {
 			proto := stun.ProtoTypeUDP
@@ -295,7 +303,7 @@ func newC09World(cfg c09Config, extra ...AgentOption) (*c09World, error) {
 		mode := cfg.StunMode
 		base.onWrite = func(data []byte, dst netip.AddrPort) {
 			dst = netip.AddrPortFrom(dst.Addr().Unmap(), dst.Port()) // (a resolved *net.UDPAddr carries the 16-byte form)
-			if dst.String() != "198.51.100.1:3478" || !stun.IsMessage(data) {
+			if (dst.String() != "198.51.100.1:3478" && !(cfg.TwoStunURLs && dst.String() == "198.51.100.4:3478")) || !stun.IsMessage(data) {
 				return
 			}
 			m := &stun.Message{Raw: data}
